@@ -572,8 +572,10 @@ impl GlyphClosure for ContextFormat1<'_> {
                     } else if sequence_idx == 0 {
                         Some(IntSet::from([coverage.iter().nth(i).unwrap()]))
                     } else {
-                        Some(IntSet::from([rule.input_sequence()
-                            [sequence_idx as usize - 1]
+                        Some(IntSet::from([rule
+                            .input_sequence()
+                            .get(sequence_idx as usize - 1)
+                            .ok_or(ReadError::OutOfBounds)?
                             .get()]))
                     };
                     ctx.add_todo(lookup_id, active_glyphs);
@@ -734,7 +736,10 @@ impl GlyphClosure for ContextFormat2<'_> {
                         Some(intersect_class(
                             &classdef,
                             ctx.glyphs(),
-                            rule.input_sequence()[seq_idx as usize - 1].get(),
+                            rule.input_sequence()
+                                .get(seq_idx as usize - 1)
+                                .ok_or(ReadError::OutOfBounds)?
+                                .get(),
                         ))
                     };
 
